@@ -6,7 +6,7 @@ import numpy as np
 from harness import core
 
 
-def make_case(H, rng, name, X, y, cid, kw, init, n_to, mix8=None, chain=None, scale=1.0):
+def make_case(H, rng, name, X, y, cid, kw, init, n_to, mix8=None, chain=None, scale=1.0, thr=None):
     cls, axis, family, needs_y = H.CLASSES[name]
     N = X.shape[axis]
     if name == "sPCovFPS":
@@ -19,7 +19,12 @@ def make_case(H, rng, name, X, y, cid, kw, init, n_to, mix8=None, chain=None, sc
     obj = core.mk(cls, **kw)
     # scaled lattice: the code sees X*scale, y*scale (genuine rounding); tables are converted back to lattice units
     rec = H.Recorder(obj, name, X.astype(float) * scale, None if y is None else np.asarray(y, float) * scale, unit / (scale * scale), True, fps=True)
-    ok = rec.fit(n_to, warm=False, with_y=needs_y, init=init)
+    # an absolute score threshold (half-integers in lattice units: never on a value) may stop the search early; the reported
+    # tables must be the true ones all the same
+    # (never followed by a warm start: the known truncation of the index array after a threshold stop is C01's finding)
+    if thr is None and not chain and scale == 1.0 and name != "sPCovFPS" and rng.random() < 0.25:
+        thr = (2 * int(rng.integers(0, 30)) + 1, 2)
+    ok = rec.fit(n_to, warm=False, with_y=needs_y, init=init, thr=thr)
     for n2 in (chain or []):
         if not ok:
             break
